@@ -2,7 +2,7 @@
    values and ANY strictly increasing tables of the right lengths; the
    regenerated tables qualify. *)
 From Coq Require Import List NArith ZArith Bool Lia ZifyBool ZifyNat ZifyN Sorted.
-From SNT Require Import Encoder.Encode Encoder.Color256 Gen.TabColor.
+From SNT Require Import Base.Outcome Encoder.Encode Encoder.Color256 Encoder.EncodeC20 Gen.TabColor.
 Import ListNotations.
 Local Open Scope Z_scope.
 Ltac Zify.zify_post_hook ::= Z.div_mod_to_equations.
@@ -355,3 +355,33 @@ Proof.
   pose proof (d2_perturb _ _ _ Uv U1 U1x C1). pose proof (d2_perturb _ _ _ Uv U2 U2x C2).
   unfold eps_sq_bound. lia.
 Qed.
+
+(* ---------- no panic on the reduced-depth path ---------- *)
+Lemma nth_chk_ok site t i : (i < length t)%nat -> nth_chk site t i = Ok (nthz t i).
+Proof.
+  intros H. unfold nth_chk, nthz. destruct (nth_error t i) eqn:E.
+  - f_equal. symmetry. apply nth_error_nth. exact E.
+  - apply nth_error_None in E. lia.
+Qed.
+
+Theorem pal_algo_chk_ok cube greys v :
+  inc cube -> length cube = 6%nat -> inc greys -> length greys = 24%nat ->
+  pal_algo_chk cube greys v = Ok (pal_algo cube greys v).
+Proof.
+  intros Hc Lc Hg Lg. destruct v as [[r g] b].
+  assert (Nc : cube <> []) by (destruct cube; [discriminate | congruence]).
+  assert (Ng3 : map (Z.mul 3) greys <> []) by (destruct greys; [discriminate | discriminate]).
+  destruct (nearest_min r cube Hc Nc) as [Rr _]. destruct (nearest_min g cube Hc Nc) as [Rg _].
+  destruct (nearest_min b cube Hc Nc) as [Rb _].
+  destruct (nearest_min (r + g + b) _ (inc_map3 _ Hg) Ng3) as [Rs _]. rewrite map_length in Rs.
+  unfold pal_algo_chk, pal_algo. rewrite !nth_chk_ok by assumption. cbn [bind].
+  unfold grey_vec, cube_vec. destruct (_ <? _); reflexivity.
+Qed.
+
+Theorem pal256_chk_ok c : pal256_chk c = Ok (pal256_exact c).
+Proof.
+  destruct tables_facts as (Hc & Lc & Hg & Lg & _). apply pal_algo_chk_ok; assumption.
+Qed.
+
+Lemma all_ok_pal l : all_ok (map pal256_chk l) = Ok tt.
+Proof. induction l as [|c l IH]; [reflexivity|]. cbn [map all_ok]. rewrite pal256_chk_ok. exact IH. Qed.
